@@ -46,6 +46,9 @@ type Method struct {
 	Spec []int
 	Ver  int // distinguishes a replacement from the method it replaced
 	Body int // around body variant
+	// Bare: unspecialised required parameters are written as bare symbols, x
+	// instead of (x t) (a rendering hint, no effect on the dispatch)
+	Bare bool
 }
 
 // Key identifies the slot a method occupies in the generic function.
@@ -134,50 +137,56 @@ func (st *State) String() string {
 	return strings.Join(tags, " ")
 }
 
-// applicable tells whether the class spec is in the precedence list of an
-// object whose class is arg.
-func (st *State) applicable(spec, arg int) bool {
-	if spec == T {
-		return true
-	}
-	if arg == Out {
-		return false
-	}
-	if st.Fam == "dia" {
-		return spec == arg || spec == 0 || arg == 3
-	}
-	return spec <= arg
-}
-
-func rank(spec int) int {
-	if spec == T {
-		return -1
-	}
-	return spec
-}
-
-// moreSpecific orders two applicable methods: the first required argument in
-// which the specializers differ decides.
-func moreSpecific(a, b *Method) bool {
-	for i := range a.Spec {
-		if ra, rb := rank(a.Spec[i]), rank(b.Spec[i]); ra != rb {
-			return rb < ra
+// CPL returns the class precedence list (as specializer values, most specific
+// first, t last) of an object whose class is arg, for the built-in families.
+func (st *State) CPL(arg int) []int {
+	var l []int
+	switch {
+	case arg == Out:
+	case st.Fam == "dia":
+		switch arg {
+		case 3:
+			l = []int{3, 2, 1, 0}
+		case 0:
+			l = []int{0}
+		default:
+			l = []int{arg, 0}
+		}
+	default:
+		for k := arg; 0 <= k; k-- {
+			l = append(l, k)
 		}
 	}
-	return false
+	return append(l, T)
 }
 
-// Applicable returns the applicable methods with the given qualifier, most
-// specific first.
-func (st *State) Applicable(qual string, args []int) []*Method {
+// pos is the position of the class spec in a precedence list, -1 if it is
+// not in it (t is in every list, after everything else).
+func pos(cpl []int, spec int) int {
+	for k, c := range cpl {
+		if c == spec {
+			return k
+		}
+	}
+	if spec == T {
+		return len(cpl)
+	}
+	return -1
+}
+
+// applicableCPL returns the methods with the given qualifier whose every
+// specializer is in the precedence list of the corresponding argument, most
+// specific first: the first required argument in which the specializers
+// differ decides, the one earlier in that argument's list wins.
+func (st *State) applicableCPL(qual string, cpls [][]int) []*Method {
 	var ms []*Method
 	for _, m := range st.M {
-		if m.Qual != qual || len(m.Spec) != len(args) {
+		if m.Qual != qual || len(m.Spec) != len(cpls) {
 			continue
 		}
 		ok := true
 		for i, s := range m.Spec {
-			if !st.applicable(s, args[i]) {
+			if pos(cpls[i], s) < 0 {
 				ok = false
 				break
 			}
@@ -186,8 +195,29 @@ func (st *State) Applicable(qual string, args []int) []*Method {
 			ms = append(ms, m)
 		}
 	}
-	sort.Slice(ms, func(i, j int) bool { return moreSpecific(ms[i], ms[j]) })
+	sort.Slice(ms, func(a, b int) bool {
+		for i := range cpls {
+			if pa, pb := pos(cpls[i], ms[a].Spec[i]), pos(cpls[i], ms[b].Spec[i]); pa != pb {
+				return pa < pb
+			}
+		}
+		return false
+	})
 	return ms
+}
+
+// Applicable returns the applicable methods with the given qualifier, most
+// specific first, for arguments of the given classes of a built-in family.
+func (st *State) Applicable(qual string, args []int) []*Method {
+	return st.applicableCPL(qual, st.cpls(args))
+}
+
+func (st *State) cpls(args []int) [][]int {
+	cpls := make([][]int, len(args))
+	for i, a := range args {
+		cpls[i] = st.CPL(a)
+	}
+	return cpls
 }
 
 // Outcome is what a call must look like.
@@ -207,12 +237,17 @@ type Outcome struct {
 
 type noNext struct{}
 
-// Dispatch computes the outcome of a call with arguments of the given classes.
-func (st *State) Dispatch(args []int) (out Outcome) {
-	arounds := st.Applicable(Around, args)
-	befores := st.Applicable(Before, args)
-	primaries := st.Applicable(Primary, args)
-	afters := st.Applicable(After, args)
+// Dispatch computes the outcome of a call with arguments of the given classes
+// of a built-in family.
+func (st *State) Dispatch(args []int) Outcome { return st.DispatchCPL(st.cpls(args)) }
+
+// DispatchCPL computes the outcome of a call from the class precedence list
+// of each required argument (specializer values, most specific first).
+func (st *State) DispatchCPL(cpls [][]int) (out Outcome) {
+	arounds := st.applicableCPL(Around, cpls)
+	befores := st.applicableCPL(Before, cpls)
+	primaries := st.applicableCPL(Primary, cpls)
+	afters := st.applicableCPL(After, cpls)
 	out.NArounds, out.NBefores, out.NAfters, out.NPrimaries = len(arounds), len(befores), len(afters), len(primaries)
 	if len(arounds)+len(befores)+len(primaries)+len(afters) == 0 {
 		out.Err = "no-applicable-method"
